@@ -625,8 +625,8 @@ pub fn main(ctx: &Ctx) -> ! {
 
     // work definition (fixed)
     let shards = ctx.pick(4, 8);
-    let arith_cases: u64 = ctx.pick(1_000_000, 40_000_000);
-    let random_rt: u64 = ctx.pick(1_000_000, 20_000_000);
+    let arith_cases: u64 = ctx.pick(600_000, 40_000_000);
+    let random_rt: u64 = ctx.pick(200_000, 20_000_000);
     let via_message: u64 = ctx.pick(100_000, 2_000_000);
 
     let mut report = vcore::run_sharded(ctx, shards, |ctx| {
